@@ -1,6 +1,9 @@
 //! Kani harnesses over trustfall_core's value-level kernels. See /verif/DESIGN.md.
 #![allow(unused, clippy::all)]
 
+#[macro_use]
+mod macros;
+
 #[cfg(kani)]
 pub mod refmodel;
 #[cfg(kani)]
@@ -30,4 +33,10 @@ pub mod c18;
 #[cfg(kani)]
 pub fn stub_format(_args: std::fmt::Arguments<'_>) -> String {
     String::new()
+}
+
+/// Stub for `<Type as Display>::fmt`: only error messages render types.
+#[cfg(kani)]
+pub fn stub_type_display(_t: &trustfall_core::ir::Type, _f: &mut std::fmt::Formatter<'_>) -> std::fmt::Result {
+    Ok(())
 }
